@@ -65,6 +65,15 @@ fn ops() -> Vec<Vec<S>> {
         vec![set("s", E::Str(vec![SP::Var("a".into())]))],
         vec![shout(idx(a(), num("0")))],
         vec![S::SetIdx(idx(a(), num("5")), num("1"))],
+        // a function that writes the captured `a` through an index, called from a function
+        // that holds its own local named `a`
+        vec![S::Func("shadowed".into(), vec![], vec![make("a", E::Arr(vec![E::Arr(vec![num("70")]), num("71")])), S::Expr(call("setg", vec![])), S::Expr(call("pushg", vec![])), shout(var("a"))]), S::Expr(call("shadowed", vec![]))],
+        vec![S::Expr(call("setg", vec![]))],
+        vec![S::Expr(call("pushg", vec![]))],
+        // mutation of an array *parameter* inside a loop (its backing store grows on the frame)
+        vec![set("b", call("pushloop", vec![a()]))],
+        vec![set("a", call("pushloop", vec![E::Arr(vec![])]))],
+        vec![shout(meth(call("pushloop", vec![b()]), "len", vec![]))],
     ];
     let mut out = Vec::new();
     for (k, op) in base.iter().enumerate() {
@@ -88,6 +97,13 @@ fn programs(max_len: u32, core: bool) -> Gen<Vec<S>> {
             make("b", E::Arr(vec![num("0")])),
             make("s", st("str")),
             func("mutret", &["p"], vec![S::Expr(meth(var("p"), "push", vec![st("M")])), S::SetIdx(idx(var("p"), num("0")), st("R")), S::Ret(Some(var("p")))]),
+            func("pushloop", &["p"], vec![
+                make("k", num("0")),
+                S::Loop(bin(Op::Lt, var("k"), num("5")), vec![S::Expr(meth(var("p"), "push", vec![bin(Op::Add, var("s"), var("k"))])), set("k", bin(Op::Add, var("k"), num("1")))]),
+                S::Ret(Some(var("p"))),
+            ]),
+            func("setg", &[], vec![S::SetIdx(idx(var("a"), num("1")), st("G"))]),
+            func("pushg", &[], vec![S::Expr(meth(idx(var("a"), num("0")), "push", vec![st("P")]))]),
             func("mutonly", &["p"], vec![S::Expr(meth(var("p"), "push", vec![st("O")])), S::Expr(meth(var("p"), "reverse", vec![]))]),
         ];
         for w in seq {
